@@ -42,6 +42,9 @@ def texts(ctx):
     return out
 
 
+# characters Python calls whitespace but RFC 4880 7.1 does not strip (only SP and TAB are removed at line ends)
+OTHER_SPACE = ['page one\x0c\npage two\x0c', 'vt\x0b\nx', 'fs\x1c\ngs\x1d\nrs\x1e\nus\x1f\n', 'nbsp\xa0\nline', 'ideographic\u3000\nend\u3000', 'nel\x85\nx',
+               'mixed \x0c \t\nx', '\x0c']
 NONASCII = ['café au lait', 'naïve — text\nsecond lïne', 'emoji \U0001F600 non-BMP', 'Grüße\n- dashed ü', 'кириллица']
 LONE_CR = ['lone\rcr', 'a\r\rb\n', '\r']
 
@@ -59,7 +62,7 @@ def run(ctx):
     pubs = [pgpy.PGPKey.from_blob(bytes(k.pubkey))[0] for k in (k1, k2, k3)]
     hashes = [HashAlgorithm.SHA256, HashAlgorithm.SHA512, HashAlgorithm.SHA1, HashAlgorithm.SHA384, HashAlgorithm.SHA224, HashAlgorithm.MD5]
     ev = []
-    allt = [(t, 'ascii') for t in texts(ctx)] + [(t, 'nonascii') for t in NONASCII] + [(t, 'lonecr') for t in LONE_CR]
+    allt = [(t, 'ascii') for t in texts(ctx)] + [(t, 'nonascii') for t in NONASCII + OTHER_SPACE] + [(t, 'lonecr') for t in LONE_CR]
     for n, (text, cls) in enumerate(allt):
         signers = [(k1, hashes[n % len(hashes)])]
         if n % 7 == 3:
@@ -162,12 +165,7 @@ def run(ctx):
         e = ev[idx]
         if clause.startswith('harness.'):
             raise MachineryError('TLC rejected harness-built cleartext material: %s %r' % (clause, ''.join(chr(c) for c in e['text'])[:80]))
-        if e['cls'] == 'nonascii':
-            key = 'non-ASCII text cannot be read back'
-        elif e['k'] in ('canon', 'foreign') and e.get('trailing_blank'):
-            key = 'trailing blanks are hashed'
-        else:
-            key = '%s %s %s' % (e['k'], e.get('variant', e.get('eol', '')), e['cls'])
+        key = '%s %s %s%s' % (e['k'], e.get('variant', e.get('eol', '')), e['cls'], ' (text with trailing blanks)' if e.get('trailing_blank') else '')
         ctx.violation(clause, key, {'text': ''.join(chr(c) for c in e['text']) if e['k'] != 'canon' else bytes(e['text']).decode('utf-8', 'replace'),
                                     'event': {k: v for k, v in e.items() if k in ('k', 'variant', 'verdict', 'raised', 'cls', 'stage', 'eol')}})
     return ctx.finish(level='model_checking',
